@@ -220,6 +220,8 @@ pub fn replay_game(v: &Value, mk: fn() -> Box<dyn Obs>) -> Result<Option<Fail>, 
         Some(n) => crate::drive::Inject::AtEnd(n as u8),
         None => crate::drive::Inject::No,
     };
+    let has_branch = v["branch"].as_array().map(|a| !a.is_empty()).unwrap_or(false);
+    let inject = if has_branch { crate::drive::Inject::No } else { inject };
     let opts = WalkOpts { profile, expand: None, follow_norep: v["follow_norep"].as_bool().unwrap_or(false), inject };
     let mut obs = mk();
     let mut st = Stats::default();
@@ -263,6 +265,11 @@ pub fn replay_game(v: &Value, mk: fn() -> Box<dyn Obs>) -> Result<Option<Fail>, 
         {
             let v1 = drive::View::new(&next, &nm, true);
             if let Err(f) = obs.on_state(&v1, &mut st) {
+                return Ok(Some(f));
+            }
+        }
+        if v["fork"].as_u64() == Some(drive::VARIANT_REBUILD as u64) {
+            if let Err((f, _)) = drive::observe_forks(&next, &nm, &[drive::VARIANT_REBUILD], &mut *obs, &mut st) {
                 return Ok(Some(f));
             }
         }
